@@ -185,7 +185,7 @@ func discharge(o *Obligation, prelude, dir string, idx int, opts *Options) {
 		dur                 float64
 	}
 	useCVC5 := !strings.Contains(q, "(lambda") && !strings.Contains(q, "(as const")
-	ch := make(chan res, len(solvers)+4)
+	ch := make(chan res, len(solvers)+8)
 	n := 0
 	for _, depth := range []int{2, 3, 5} {
 		n++
@@ -214,6 +214,16 @@ func discharge(o *Obligation, prelude, dir string, idx int, opts *Options) {
 			s, out, d := runSolver(ctx, sp, file, opts.Timeout, opts.Seed)
 			ch <- res{sp.name, s, out, d}
 		}(sp)
+	}
+	for _, extra := range []int{1, 2} {
+		n++
+		go func(seed int) {
+			s, out, d := runSolver(ctx, solvers[0], file, opts.Timeout, seed)
+			if s == "sat" {
+				s = "unknown"
+			}
+			ch <- res{fmt.Sprintf("z3-new/seed-%d", seed), s, out, d}
+		}(opts.Seed + extra)
 	}
 	var errs []string
 	var satRes *res
@@ -282,7 +292,7 @@ func quickPass(obls []*Obligation, prelude, dir string, opts *Options) {
 			if o.MustFail {
 				tt = 1 // vacuity probes are expected NOT to be provable: a short look is enough
 			}
-			st, out, d := runSolver(context.Background(), solvers[0], file, tt, opts.Seed)
+			st, out, d := runSolver(context.Background(), solvers[0], file, tt, 0)
 			if st == "unsat" {
 				o.Status, o.Solver, o.Time = "proved", solvers[0].name, d
 			} else if o.MustFail {
